@@ -177,6 +177,22 @@ func (c *Crew) Errorf(format string, args ...interface{}) {
 // When the mid is either (the variable) TimersMachine and the given
 // state is nil, the timers machine's state is reset.
 func (c *Crew) SetMachine(ctx context.Context, mid string, src *crew.SpecSource, state *core.State) error {
+	// Get the specification first: when it can't be had (say it
+	// doesn't compile) nothing is changed and nothing is reported.
+	// Otherwise the crew would keep the machine's previous spec
+	// (or a machine without one) while its report, and so the
+	// store, has the one that was refused.
+	var (
+		resolvedSrc  *crew.SpecSource
+		resolvedSpec *core.Spec
+	)
+	if src != nil && mid != TimersMachine && mid != CaptainMachine {
+		var err error
+		if resolvedSrc, resolvedSpec, err = ResolveSpecSource(ctx, src); err != nil {
+			return err
+		}
+	}
+
 	m, have := c.Machines[mid]
 
 	if !have {
@@ -241,12 +257,8 @@ func (c *Crew) SetMachine(ctx context.Context, mid string, src *crew.SpecSource,
 		m.Specter = spec
 	default:
 		if src != nil {
-			ss, spec, err := ResolveSpecSource(ctx, src)
-			if err != nil {
-				return err
-			}
-			m.SpecSource = ss
-			m.Specter = spec
+			m.SpecSource = resolvedSrc
+			m.Specter = resolvedSpec
 		}
 	}
 
